@@ -410,8 +410,71 @@ func oracleC07(run *mon.Run, s *sim.Sim, tierT bool, r *rand.Rand) {
 		}
 	}
 	run.Count("end."+cls, 1)
+	// (vi) bounded progress: when every participant is honest and every message was delivered, the
+	// protocol ends with keys (a DKG that always fails would satisfy "agreement" trivially)
+	if len(s.Sc.Byz) == 0 && cls != "ok" {
+		run.Violate(id+":all-honest-run-fails", fmt.Sprintf("all %d participants are honest and every message was delivered in its round, yet End() returns %v", s.Sc.N, hs[0].EndErr), rep)
+		return
+	}
+	// (vii) what a node reports and what it returns belong together: a node that reported Disqualify
+	// for the (single) dealer must end with a DKG failure
+	if s.Sc.Proto == sim.FVSSQ {
+		for _, h := range hs {
+			if h.ID != s.Sc.Dealer && h.Disq[s.Sc.Dealer] && h.EndErr == nil {
+				run.Violate(id+":keys-despite-reported-disqualification", fmt.Sprintf("honest node %d reported Disqualify(%d) and End() still returned keys", h.ID, s.Sc.Dealer), rep)
+				return
+			}
+		}
+	}
 	if cls != "ok" {
 		return
+	}
+	// (vii, Joint-Feldman) the group key is the sum of the secrets' commitments A_0 of exactly the dealers
+	// the node did not report as disqualified (A_0 = first point of the first vector the dealer broadcast)
+	if s.Sc.Proto == sim.JF {
+		h := hs[0]
+		var parts []crypto.PublicKey
+		okAll := true
+		for d := 0; d < s.Sc.N && okAll; d++ {
+			if h.Disq[d] {
+				continue
+			}
+			var a0 []byte
+			if d == h.ID {
+				// own dealing: take it from what the node itself broadcast
+				for _, e := range s.Log {
+					if e.Kind == "send-bcast" && e.Node == d && len(e.Data) >= 97 && e.Data[0] == sim.TagVector {
+						a0 = e.Data[1:97]
+						break
+					}
+				}
+			} else {
+				for _, dl := range s.Delivered {
+					if dl.Bcast && dl.From == d && dl.To == h.ID && len(dl.Data) >= 97 && dl.Data[0] == sim.TagVector {
+						a0 = dl.Data[1:97]
+						break
+					}
+				}
+			}
+			if a0 == nil {
+				okAll = false
+				break
+			}
+			k, err := crypto.DecodePublicKey(BLS, a0)
+			if err != nil {
+				okAll = false
+				break
+			}
+			parts = append(parts, k)
+		}
+		if okAll && len(parts) > 0 {
+			want, err := crypto.AggregateBLSPublicKeys(parts)
+			run.Count("group-key-vs-qualified-set", 1)
+			if err == nil && !want.Equals(h.GPK) {
+				run.Violate(id+":group-key-not-sum-of-qualified-dealers", fmt.Sprintf("honest node %d: the group key is not the sum of A_0 over the dealers it did not report as disqualified (reported: %v)", h.ID, h.Disq), rep)
+				return
+			}
+		}
 	}
 	// (iii) identical keys
 	for _, h := range hs[1:] {
